@@ -2,7 +2,7 @@
 //
 // Case lines
 //   kt <tol> <iters> <x0> <y0> <z0> <r> <phi0> <h> <pr> <pphi> <pz> <tq>     (floats: 16 hex digits of the bits)
-//        differential: observation = bits of verif_helix_closest_t, of verif_helix_at(t) and of verif_helix_at(tq);
+//        differential: observation = `ok` + bits of verif_helix_closest_t, of verif_helix_at(t) and of verif_helix_at(tq);
 //        the extracted Coq model (coq/Recon/Helix.v, glibc libm) must print the same line
 //   relk <x0> <y0> <z0> <r> <phi0> <h> <pr> <pphi> <pz>
 //        implementation alone (a TEST, not a proof): with the library's tolerance f64::EPSILON and 20
@@ -54,7 +54,7 @@ fn observe_kt(tol: f64, iters: usize, hp: [f64; 6], sp: [f64; 3], tq: f64) -> St
         let a = at(hp, t);
         let b = at(hp, tq);
         format!(
-            "{} {} {} {} {} {} {}",
+            "ok {} {} {} {} {} {} {}",
             bits(t),
             bits(a[0]),
             bits(a[1]),
